@@ -270,15 +270,19 @@ SemR(prog, xs) == PipeRun(prog, xs, TRUE).out
 \* pipeline has yielded what the later stages make of the values before that one (nothing is flushed: the
 \* stream did not end) and then the exception reaches the consumer - unless a later stage had finished before
 \* the failing value was asked for.  fails: the input of the rest of the pipeline raises instead of ending.
-RECURSIVE FirstAt(_, _, _)
-FirstAt(xs, at, i) == IF i > Len(xs) THEN 0 ELSE IF xs[i].d = at THEN i ELSE FirstAt(xs, at, i + 1)
 RECURSIVE PipeRunF(_, _, _)
+\* the stage raises when it is given v: the callable itself, or a RunIf that selects v and whose arguments raise
+FailsOn(st, v) == CASE st.t = "raiser" -> v.d = st.at
+                    [] st.t = "runifs" -> Pred(st.p, v) /\ PipeRunF(st.body, <<v>>, FALSE).failed
+                    [] OTHER -> FALSE
+RECURSIVE FirstFail(_, _, _)
+FirstFail(xs, st, i) == IF i > Len(xs) THEN 0 ELSE IF FailsOn(st, xs[i]) THEN i ELSE FirstFail(xs, st, i + 1)
 PipeRunF(prog, xs, fails) ==
   IF prog = <<>> THEN [out |-> xs, failed |-> fails]
-  ELSE LET st == Head(prog) IN
-       IF st.t = "raiser" /\ FirstAt(xs, st.at, 1) > 0
-       THEN PipeRunF(Tail(prog), SubSeq(xs, 1, FirstAt(xs, st.at, 1) - 1), TRUE)
-       ELSE LET r == StageRun(st, InitLoc(st), xs, ~fails) IN PipeRunF(Tail(prog), r.out, ~r.fin)
+  ELSE LET st == Head(prog)
+           j == FirstFail(xs, st, 1)
+           r == StageRun(st, InitLoc(st), IF j > 0 THEN SubSeq(xs, 1, j - 1) ELSE xs, j = 0 /\ ~fails)
+       IN PipeRunF(Tail(prog), r.out, ~r.fin)
 SemF(prog, xs) == PipeRunF(prog, xs, FALSE)
 
 Take(xs, m) == SubSeq(xs, 1, IF m < Len(xs) THEN m ELSE Len(xs))
